@@ -10,6 +10,22 @@ import Chrono.Extracted.Anchors
 namespace Chrono.Pins.C07
 open Chrono.Extracted.Anchors
 
+/-- src/naive/datetime/mod.rs:impl Add -/
+theorem src_naive_datetime_mod_rs_impl_Add : C07_src_naive_datetime_mod_rs_impl_Add =
+    ["Add", "<", "TimeDelta", ">", "for", "NaiveDateTime", "Output", "NaiveDateTime", "add(", "self", "v1", "TimeDelta", "->", "NaiveDateTime", "self", "checked_add_signed(", "v1", "expect(", "\"…\"", "§", "Add", "<", "Duration", ">", "for", "NaiveDateTime", "Output", "NaiveDateTime", "add(", "self", "v1", "Duration", "->", "NaiveDateTime", "v1", "TimeDelta", "from_std(", "v1", "expect(", "\"…\"", "self", "checked_add_signed(", "v1", "expect(", "\"…\"", "§", "Add", "<", "FixedOffset", ">", "for", "NaiveDateTime", "Output", "NaiveDateTime", "add(", "self", "v1", "FixedOffset", "->", "NaiveDateTime", "self", "checked_add_offset(", "v1", "expect(", "\"…\"", "§", "Add", "<", "Months", ">", "for", "NaiveDateTime", "Output", "NaiveDateTime", "add(", "self", "v1", "Months", "->", "Self", "Output", "self", "checked_add_months(", "v1", "expect(", "\"…\"", "§", "Add", "<", "Days", ">", "for", "NaiveDateTime", "Output", "NaiveDateTime", "add(", "self", "v1", "Days", "->", "Self", "Output", "self", "checked_add_days(", "v1", "expect(", "\"…\""] := by decide +kernel
+
+/-- src/naive/datetime/mod.rs:impl AddAssign -/
+theorem src_naive_datetime_mod_rs_impl_AddAssign : C07_src_naive_datetime_mod_rs_impl_AddAssign =
+    ["AddAssign", "<", "TimeDelta", ">", "for", "NaiveDateTime", "add_assign(", "&", "self", "v1", "TimeDelta", "*", "self", "self", "add(", "v1", "§", "AddAssign", "<", "Duration", ">", "for", "NaiveDateTime", "add_assign(", "&", "self", "v1", "Duration", "*", "self", "self", "add(", "v1"] := by decide +kernel
+
+/-- src/naive/datetime/mod.rs:impl Sub -/
+theorem src_naive_datetime_mod_rs_impl_Sub : C07_src_naive_datetime_mod_rs_impl_Sub =
+    ["Sub", "<", "TimeDelta", ">", "for", "NaiveDateTime", "Output", "NaiveDateTime", "sub(", "self", "v1", "TimeDelta", "->", "NaiveDateTime", "self", "checked_sub_signed(", "v1", "expect(", "\"…\"", "§", "Sub", "<", "Duration", ">", "for", "NaiveDateTime", "Output", "NaiveDateTime", "sub(", "self", "v1", "Duration", "->", "NaiveDateTime", "v1", "TimeDelta", "from_std(", "v1", "expect(", "\"…\"", "self", "checked_sub_signed(", "v1", "expect(", "\"…\"", "§", "Sub", "<", "FixedOffset", ">", "for", "NaiveDateTime", "Output", "NaiveDateTime", "sub(", "self", "v1", "FixedOffset", "->", "NaiveDateTime", "self", "checked_sub_offset(", "v1", "expect(", "\"…\"", "§", "Sub", "<", "Months", ">", "for", "NaiveDateTime", "Output", "NaiveDateTime", "sub(", "self", "v1", "Months", "->", "Self", "Output", "self", "checked_sub_months(", "v1", "expect(", "\"…\"", "§", "Sub", "<", "NaiveDateTime", ">", "for", "NaiveDateTime", "Output", "TimeDelta", "sub(", "self", "v1", "NaiveDateTime", "->", "TimeDelta", "self", "signed_duration_since(", "v1", "§", "Sub", "<", "Days", ">", "for", "NaiveDateTime", "Output", "NaiveDateTime", "sub(", "self", "v1", "Days", "->", "Self", "Output", "self", "checked_sub_days(", "v1", "expect(", "\"…\""] := by decide +kernel
+
+/-- src/naive/datetime/mod.rs:impl SubAssign -/
+theorem src_naive_datetime_mod_rs_impl_SubAssign : C07_src_naive_datetime_mod_rs_impl_SubAssign =
+    ["SubAssign", "<", "TimeDelta", ">", "for", "NaiveDateTime", "sub_assign(", "&", "self", "v1", "TimeDelta", "*", "self", "self", "sub(", "v1", "§", "SubAssign", "<", "Duration", ">", "for", "NaiveDateTime", "sub_assign(", "&", "self", "v1", "Duration", "*", "self", "self", "sub(", "v1"] := by decide +kernel
+
 /-- src/naive/time/mod.rs:fn from_hms_micro_opt -/
 theorem src_naive_time_mod_rs_fn_from_hms_micro_opt : C07_src_naive_time_mod_rs_fn_from_hms_micro_opt =
     ["v1", "u32", "v2", "u32", "v3", "u32", "v4", "u32", "->", "Option", "<", "NaiveTime", ">", "v5", "try_opt!(", "v4", "checked_mul(", "1000", "NaiveTime", "from_hms_nano_opt(", "v1", "v2", "v3", "v5"] := by decide +kernel
@@ -50,6 +66,22 @@ theorem src_naive_time_mod_rs_fn_overflowing_sub_signed : C07_src_naive_time_mod
 theorem src_naive_time_mod_rs_fn_signed_duration_since : C07_src_naive_time_mod_rs_fn_signed_duration_since =
     ["self", "v1", "NaiveTime", "->", "TimeDelta", "v2", "self", "v2", "as", "i64", "-", "v1", "v2", "as", "i64", "v3", "self", "v3", "as", "i64", "-", "v1", "v3", "as", "i64", "if", "self", "v2", ">", "v1", "v2", "&&", "v1", "v3", ">=", "1000000000", "v2", "+=", "1", "else", "if", "self", "v2", "<", "v1", "v2", "&&", "self", "v3", ">=", "1000000000", "v2", "-=", "1", "v4", "v3", "div_euclid(", "1000000000", "v3", "v3", "rem_euclid(", "1000000000", "as", "u32", "expect(", "TimeDelta", "new(", "v2", "+", "v4", "v3", "\"…\""] := by decide +kernel
 
+/-- src/naive/time/mod.rs:impl Add -/
+theorem src_naive_time_mod_rs_impl_Add : C07_src_naive_time_mod_rs_impl_Add =
+    ["Add", "<", "TimeDelta", ">", "for", "NaiveTime", "Output", "NaiveTime", "add(", "self", "v1", "TimeDelta", "->", "NaiveTime", "self", "overflowing_add_signed(", "v1", "§", "Add", "<", "Duration", ">", "for", "NaiveTime", "Output", "NaiveTime", "add(", "self", "v1", "Duration", "->", "NaiveTime", "v2", "v1", "as_secs(", "v2", "if", "v2", ">=", "86400", "v2", "%", "86400", "+", "86400", "else", "v2", "v3", "TimeDelta", "new(", "v2", "as", "i64", "v1", "subsec_nanos(", "unwrap(", "self", "overflowing_add_signed(", "v3", "§", "Add", "<", "FixedOffset", ">", "for", "NaiveTime", "Output", "NaiveTime", "add(", "self", "v1", "FixedOffset", "->", "NaiveTime", "self", "overflowing_add_offset(", "v1"] := by decide +kernel
+
+/-- src/naive/time/mod.rs:impl AddAssign -/
+theorem src_naive_time_mod_rs_impl_AddAssign : C07_src_naive_time_mod_rs_impl_AddAssign =
+    ["AddAssign", "<", "TimeDelta", ">", "for", "NaiveTime", "add_assign(", "&", "self", "v1", "TimeDelta", "*", "self", "self", "add(", "v1", "§", "AddAssign", "<", "Duration", ">", "for", "NaiveTime", "add_assign(", "&", "self", "v1", "Duration", "*", "self", "*", "self", "+", "v1"] := by decide +kernel
+
+/-- src/naive/time/mod.rs:impl Sub -/
+theorem src_naive_time_mod_rs_impl_Sub : C07_src_naive_time_mod_rs_impl_Sub =
+    ["Sub", "<", "TimeDelta", ">", "for", "NaiveTime", "Output", "NaiveTime", "sub(", "self", "v1", "TimeDelta", "->", "NaiveTime", "self", "overflowing_sub_signed(", "v1", "§", "Sub", "<", "Duration", ">", "for", "NaiveTime", "Output", "NaiveTime", "sub(", "self", "v1", "Duration", "->", "NaiveTime", "v2", "v1", "as_secs(", "v2", "if", "v2", ">=", "86400", "v2", "%", "86400", "+", "86400", "else", "v2", "v3", "TimeDelta", "new(", "v2", "as", "i64", "v1", "subsec_nanos(", "unwrap(", "self", "overflowing_sub_signed(", "v3", "§", "Sub", "<", "FixedOffset", ">", "for", "NaiveTime", "Output", "NaiveTime", "sub(", "self", "v1", "FixedOffset", "->", "NaiveTime", "self", "overflowing_sub_offset(", "v1", "§", "Sub", "<", "NaiveTime", ">", "for", "NaiveTime", "Output", "TimeDelta", "sub(", "self", "v1", "NaiveTime", "->", "TimeDelta", "self", "signed_duration_since(", "v1"] := by decide +kernel
+
+/-- src/naive/time/mod.rs:impl SubAssign -/
+theorem src_naive_time_mod_rs_impl_SubAssign : C07_src_naive_time_mod_rs_impl_SubAssign =
+    ["SubAssign", "<", "TimeDelta", ">", "for", "NaiveTime", "sub_assign(", "&", "self", "v1", "TimeDelta", "*", "self", "self", "sub(", "v1", "§", "SubAssign", "<", "Duration", ">", "for", "NaiveTime", "sub_assign(", "&", "self", "v1", "Duration", "*", "self", "*", "self", "-", "v1"] := by decide +kernel
+
 /-- src/naive/time/mod.rs:impl Timelike for NaiveTime -/
 theorem src_naive_time_mod_rs_impl_Timelike_for_NaiveTime : C07_src_naive_time_mod_rs_impl_Timelike_for_NaiveTime =
     ["Timelike", "for", "NaiveTime", "hour(", "&", "self", "->", "u32", "self", "hms(", "minute(", "&", "self", "->", "u32", "self", "hms(", "second(", "&", "self", "->", "u32", "self", "hms(", "nanosecond(", "&", "self", "->", "u32", "self", "v1", "with_hour(", "&", "self", "v2", "u32", "->", "Option", "<", "NaiveTime", ">", "if", "v2", ">=", "24", "return", "None", "v3", "v2", "*", "3600", "+", "self", "v3", "%", "3600", "Some(", "NaiveTime", "v3", "..", "*", "self", "with_minute(", "&", "self", "v4", "u32", "->", "Option", "<", "NaiveTime", ">", "if", "v4", ">=", "60", "return", "None", "v3", "self", "v3", "/", "3600", "*", "3600", "+", "v4", "*", "60", "+", "self", "v3", "%", "60", "Some(", "NaiveTime", "v3", "..", "*", "self", "with_second(", "&", "self", "v5", "u32", "->", "Option", "<", "NaiveTime", ">", "if", "v5", ">=", "60", "return", "None", "v3", "self", "v3", "/", "60", "*", "60", "+", "v5", "Some(", "NaiveTime", "v3", "..", "*", "self", "with_nanosecond(", "&", "self", "v6", "u32", "->", "Option", "<", "NaiveTime", ">", "if", "v6", ">=", "2000000000", "return", "None", "Some(", "NaiveTime", "v1", "v6", "..", "*", "self", "num_seconds_from_midnight(", "&", "self", "->", "u32", "self", "v3"] := by decide +kernel
@@ -62,9 +94,21 @@ theorem src_traits_rs_fn_hour12 : C07_src_traits_rs_fn_hour12 =
 theorem src_traits_rs_fn_num_seconds_from_midnight : C07_src_traits_rs_fn_num_seconds_from_midnight =
     ["&", "self", "->", "u32", "self", "hour(", "*", "3600", "+", "self", "minute(", "*", "60", "+", "self", "second("] := by decide +kernel
 
+/-- callee src/naive/datetime/mod.rs:fn checked_add_offset -/
+theorem callee_src_naive_datetime_mod_rs_fn_checked_add_offset : C07_callee_src_naive_datetime_mod_rs_fn_checked_add_offset =
+    ["self", "v1", "FixedOffset", "->", "Option", "<", "NaiveDateTime", ">", "let(", "v2", "v3", "self", "v2", "overflowing_add_offset(", "v1", "v4", "match", "v3", "-", "1", "=>", "try_opt!(", "self", "v4", "pred_opt(", "1", "=>", "try_opt!(", "self", "v4", "succ_opt(", "v5", "=>", "self", "v4", "Some(", "NaiveDateTime", "v4", "v2"] := by decide +kernel
+
+/-- callee src/naive/datetime/mod.rs:fn checked_sub_offset -/
+theorem callee_src_naive_datetime_mod_rs_fn_checked_sub_offset : C07_callee_src_naive_datetime_mod_rs_fn_checked_sub_offset =
+    ["self", "v1", "FixedOffset", "->", "Option", "<", "NaiveDateTime", ">", "let(", "v2", "v3", "self", "v2", "overflowing_sub_offset(", "v1", "v4", "match", "v3", "-", "1", "=>", "try_opt!(", "self", "v4", "pred_opt(", "1", "=>", "try_opt!(", "self", "v4", "succ_opt(", "v5", "=>", "self", "v4", "Some(", "NaiveDateTime", "v4", "v2"] := by decide +kernel
+
 /-- callee src/offset/fixed.rs:fn local_minus_utc -/
 theorem callee_src_offset_fixed_rs_fn_local_minus_utc : C07_callee_src_offset_fixed_rs_fn_local_minus_utc =
     ["&", "self", "->", "i32", "self", "v1"] := by decide +kernel
+
+/-- callee src/time_delta.rs:fn from_std -/
+theorem callee_src_time_delta_rs_fn_from_std : C07_callee_src_time_delta_rs_fn_from_std =
+    ["v1", "Duration", "->", "Result", "<", "TimeDelta", "OutOfRangeError", ">", "if", "v1", "as_secs(", ">", "MAX", "v2", "as", "u64", "return", "Err(", "OutOfRangeError(", "match", "TimeDelta", "new(", "v1", "as_secs(", "as", "i64", "v1", "subsec_nanos(", "Some(", "v3", "=>", "Ok(", "v3", "None", "=>", "Err(", "OutOfRangeError("] := by decide +kernel
 
 /-- callee src/time_delta.rs:fn num_seconds -/
 theorem callee_src_time_delta_rs_fn_num_seconds : C07_callee_src_time_delta_rs_fn_num_seconds =
